@@ -251,7 +251,11 @@ def gen_xrule(rng):
     op = rng.choice(['<', '<=', '>', '>=', '!=', '=='])
     a, b = gen_expr(rng, bound), gen_expr(rng, bound)
     if op == '==' and is_plain(a):
-      a = {'bin': ['+', a, {'const': 0}]}     # `x == e` with a plain left side is a unification, not a comparison
+      a = {'bin': ['+', a, {'const': 0}]}     # `x == e` with a plain variable on a side is a unification (the
+    if op == '==' and is_plain(b):            # variable becomes the expression), not a comparison
+      b = {'bin': ['+', b, {'const': 0}]}
+    if a == b:
+      continue          # `e == e` is dropped by the compiler as trivially true
     if 'const' in a and 'const' in b:
       a = {'bin': ['+', a, {'var': bound[0]}]} if bound else a
     tests.append([op, a, b])
